@@ -204,7 +204,9 @@ def check(world, plans, results):
         if r2["rc"] != b_rc or (b_rc == 0 and view(tagged(plan, res, "dump2")) != b_dump):
             v.fail("reset", "plan %s: after econf_reset_security_settings the read returns rc=%r (unrestricted: %r) or different content" % (label, r2["rc"], b_rc))
     v.nontrivial = len(cons) >= 2 and len(world["rules"]) >= 1
-    v.sig = sig_of(world["ep"], world["rules"], sorted(sigs), min(len(cons), 5))
+    from . import c01 as _c01
+    tsig = _c01.layered_signature(world, model) if model else "single"
+    v.sig = sig_of(world["ep"], world["rules"], sorted(sigs), min(len(cons), 5), tsig, world["setter_history"])
     v.probe("executions", len(results))
     if world["setter_history"] != "plain":
         v.probe("setter_history_" + world["setter_history"])
